@@ -7,7 +7,7 @@
    the plain round trip covers); reader/cache behaviour on histories of a foreign sender is checked by evaluation on
    witnesses and by the correspondence run (partial). *)
 From EDP Require Import Base.Bytes Term.Term Gen.Tags Gen.DecoderArms Codec.Encode Codec.Decode Codec.Norm Codec.DistHeader
-  Codec.RoundTripC Codec.DistHeaderFacts Codec.AtomCacheFacts Order.Cmp.
+  Codec.RoundTripC Codec.DistHeaderFacts Codec.AtomCache Codec.AtomCacheFacts Order.Cmp.
 
 (* beyond the header's limit of 255 references encoding reports an error, whatever the terms *)
 Theorem C14_too_many_atoms : forall order ts, 255 < len order -> encode_multi order ts = HTooManyAtoms (len order).
